@@ -213,6 +213,14 @@ def verify_case(ident, case_index):
                     r["backend"] += " (path-independent)"
             if r is None:
                 r = solve.discharge(ob.assumptions, ob.goal, ob.inputs)
+            if r["status"] == "unknown" and z3.is_false(z3.simplify(ob.goal) if z3.is_expr(ob.goal) else ob.goal):
+                # a goal that is literally false fails iff its path is feasible; quantified facts often make that check inconclusive: decide
+                # feasibility without them (weaker hypotheses; the branch decisions of the path were made the same way)
+                qf = [a_ for a_ in ob.assumptions if not _has_quantifier(a_)]
+                r2 = solve.discharge(qf, ob.goal, ob.inputs, timeout_ms=5000, fallbacks=False)
+                if r2["status"] == "sat":
+                    r = r2
+                    r["backend"] += " (path feasibility decided without quantified facts)"
             rec = dict(ident=ob.ident(), name=ob.name, kind=ob.kind, func=ob.func, line=ob.line,
                        status=r["status"], backend=r["backend"], time_s=round(r["time_s"], 4), model=r.get("model"),
                        meta=ob.meta, tried=r.get("tried"))
@@ -256,6 +264,19 @@ def verify_lemma(name):
         out["crash"] = traceback.format_exc()
     out["time_s"] = round(time.time() - t0, 3)
     return out
+
+
+def _has_quantifier(f):
+    stack, seen = [f], set()
+    while stack:
+        x = stack.pop()
+        if x.get_id() in seen:
+            continue
+        seen.add(x.get_id())
+        if z3.is_quantifier(x):
+            return True
+        stack.extend(x.children())
+    return False
 
 
 def run_task(task):
